@@ -1,4 +1,4 @@
-SPECIFICATION Spec
+SPECIFICATION FairSpec
 CONSTANTS
   MaxLen = 7
   BUF = 2
@@ -7,3 +7,5 @@ CONSTANTS
 INVARIANT Prefix
 INVARIANT Whole
 INVARIANT SizeOK
+PROPERTY Terminates
+PROPERTY Progress
